@@ -138,6 +138,18 @@ Theorem C05_voter_record_kept :
 Proof. exact voter_record_kept. Qed.
 Print Assumptions C05_voter_record_kept.
 
+(* The check run inside Coq on REAL voter lives (case mode MVotes: every vote a
+   real Voter process on a real VoteDB sent over a life with restarts and
+   crashes, [votes_ok]) is exactly the bound the composed theorems rest on:
+   every history of the Voter model passes it.  A real life that fails it is
+   outside the model - the harness then also feeds the offending pair to the
+   real evidence path (oracle hit protocol-following-validator-slashed). *)
+Theorem C05_voter_lives_pass_the_check :
+  forall hs : history,
+    votes_ok (votes_of (C3E.all_events (fst hs) C3.init_voter (snd hs))) = true.
+Proof. exact history_votes_ok. Qed.
+Print Assumptions C05_voter_lives_pass_the_check.
+
 (* non-vacuity, and the open class exhibited INSIDE the voter model: the C03
    voter at (7,1) prevotes block 1 and - after a prevote quorum for block 2 -
    precommits block 2; with ideal signatures for exactly these two votes the
